@@ -334,6 +334,7 @@ def check(prog, run):
     c09.check_deferred_conservation(prog, run, "R11")
     check_deferred_predicate(prog, run, "R12")
     c09.check_guarded_flatten(prog, run, "R13")
+    check_non_null_after_completion(prog, run, "R14")
     from .. import sentinel
     sentinel.check(prog, run, "R10", ["py_gql.execution"], 6,
                    "an unexpected IndexError/KeyError from a resolver would be lost under one executor/runtime and surface under the others")
@@ -582,3 +583,45 @@ def check_map_value_contract(prog, run, rule_id):
                     run.report(r, "%s:%s:swallows" % (f.module.name, label), f.where(),
                                "%s catches exceptions of `then` but has no path that re-raises the unmatched ones: an unexpected "
                                "resolver exception is lost" % label)
+
+
+def check_non_null_after_completion(prog, run, rule_id):
+    """Both executors check the COMPLETED value of a non-null position."""
+    from .. import boolx
+    r = run.rule(rule_id, "complete_non_nullable_value (generic Executor and the BlockingExecutor override): every returning path hands the "
+                          "result of complete_value to _handle_non_nullable_value (directly, or through the callback given to "
+                          "runtime.map_value) — completion itself can produce null (a scalar serialising to None), and an executor that "
+                          "only checks the raw resolver value records no `not nullable` error where the others do", 2)
+    for mod, q in ((EXE, "Executor.complete_non_nullable_value"), (BEXE, "BlockingExecutor.complete_non_nullable_value")):
+        f = prog.get_func(mod, q)
+        run.looked_at(f)
+        try:
+            _ev, exits = boolx.walk_under(f.node, lambda t: None)
+        except ValueError as e:
+            raise AnalysisError("%s: %s" % (rule_id, e))
+        rets = [(st, env) for k, st, env in exits if k == "return"]
+        r.instance("%s: %d returning paths" % (q, len(rets)))
+        if not rets:
+            raise AnalysisError("%s: %s has no returning path" % (rule_id, q))
+        for st, env in rets:
+            ok = False
+            for c in env.get(boolx.CALLS, ()):
+                if isinstance(c.func, ast.Attribute) and c.func.attr == "_handle_non_nullable_value":
+                    # its value argument must come from complete_value
+                    if any(isinstance(x, ast.Call) and isinstance(x.func, ast.Attribute) and x.func.attr == "complete_value" for a in c.args for x in ast.walk(a)) \
+                            or any(isinstance(a, ast.Name) for a in c.args[2:3]):
+                        ok = ok or any(isinstance(x, ast.Call) and isinstance(x.func, ast.Attribute) and x.func.attr == "complete_value"
+                                       for x in env.get(boolx.CALLS, ()))
+                if isinstance(c.func, ast.Attribute) and c.func.attr == "map_value" and len(c.args) >= 2:
+                    cb = c.args[1]
+                    body = cb.body if isinstance(cb, ast.Lambda) else (f.nested[cb.id].node if isinstance(cb, ast.Name) and cb.id in f.nested else None)
+                    if body is not None and any(isinstance(x, ast.Call) and isinstance(x.func, ast.Attribute) and x.func.attr == "_handle_non_nullable_value"
+                                                for x in ast.walk(body)) \
+                            and any(isinstance(x, ast.Call) and isinstance(x.func, ast.Attribute) and x.func.attr == "complete_value" for x in ast.walk(c.args[0])):
+                        ok = True
+            if not ok:
+                cond = ", ".join("%s=%s" % kv for kv in sorted(env.items()) if kv[0] not in (boolx.CALLS, boolx.STMTS))
+                run.report(r, "%s:%s:completed-value-unchecked" % (mod, q), f.where(st),
+                           "%s can return `%s` without passing the completed value to _handle_non_nullable_value (when %s): a null produced "
+                           "by completion is not reported as `not nullable` under this executor" % (q, norm_stmt(st, 60), cond or "always"))
+                break
